@@ -26,7 +26,7 @@ import (
 // ---------- canonical values ----------
 // N<bits> B<t|f> S<quoted> A[v v] M{"k":v "k":v}
 
-type dumpParser struct {
+type bcDumpParser struct {
 	s   string
 	i   int
 	ids map[string]string
@@ -35,7 +35,7 @@ type dumpParser struct {
 func canonNum(f float64) string { return fmt.Sprintf("N%016x", canonBits(f)) }
 
 // parseEvalDump parses one value of Evaluator.VerifGlobals' format.
-func (p *dumpParser) evalValue() (string, error) {
+func (p *bcDumpParser) evalValue() (string, error) {
 	if strings.HasPrefix(p.s[p.i:], "none") {
 		p.i += 4
 		return "none", nil
@@ -156,7 +156,7 @@ func evalGlobals(lines []string) (map[string]string, error) {
 	out := map[string]string{}
 	for _, l := range lines {
 		k := strings.IndexByte(l, '=')
-		p := &dumpParser{s: l, i: k + 1, ids: ids}
+		p := &bcDumpParser{s: l, i: k + 1, ids: ids}
 		v, err := p.evalValue()
 		if err != nil {
 			return nil, fmt.Errorf("%v in %q", err, l)
@@ -167,7 +167,7 @@ func evalGlobals(lines []string) (map[string]string, error) {
 }
 
 // vmValue parses VM.VerifGlobalRepr's format.
-func (p *dumpParser) vmValue() (string, error) {
+func (p *bcDumpParser) vmValue() (string, error) {
 	rest := p.s[p.i:]
 	switch {
 	case strings.HasPrefix(rest, "none"):
@@ -398,7 +398,7 @@ func c16RunVM(c c17Compiled, limit time.Duration) c16VM {
 			out.Globals[name] = "unset"
 			continue
 		}
-		p := &dumpParser{s: repr}
+		p := &bcDumpParser{s: repr}
 		v, err := p.vmValue()
 		if err != nil {
 			v = "unparsable:" + repr
